@@ -5,7 +5,19 @@ namespace Slicec.Drv
 
 open Slicec
 
+/-- files without a module declaration: only file attributes (and comments) — valid, and the attributes are part of the file -/
+def genC02Moduleless (o : Out) : IO Unit := do
+  let fa1 : List Attr := [⟨"foo::bar", ["x \"y\""]⟩, ⟨"foo::baz", ["a", "b"]⟩]
+  let fa2 : List Attr := [⟨"allow", ["All"]⟩]
+  let bare (as : List Attr) : SFile := { fileAttrs := as, module := none, defs := [] }
+  let normal : SFile := { fileAttrs := [⟨"cs::x", []⟩], module := some ⟨[], "Test"⟩, defs := [.struct [] [] false "S" []] }
+  for p in [[bare fa1], [bare fa2], [bare []], [bare fa1, normal], [normal, bare fa1], [bare fa2, bare fa1, normal], [normal, bare [], bare fa2]] do
+    for style in [0, 1, 2] do
+      let texts := p.zipIdx.map fun (f, i) => (render style (17 + i + style) (fileItems f)).1
+      o.line (compileCase "moduleless" "ast" "-" texts (astDump p))
+
 def genC02 (tier : Tier) (seed : Nat) (o : Out) : IO Unit := do
+  genC02Moduleless o
   let nProg := if tier == .thorough then 15000 else 1000
   let layouts := if tier == .thorough then 8 else 4
   let mut r := Rng.mk' (seed + 2)
